@@ -56,8 +56,18 @@ def run_one(args):
         shutil.copytree(os.path.join(repo, 'smartquery'), os.path.join(dst, 'smartquery'),
                         ignore=shutil.ignore_patterns('__pycache__'))
         if entry.get('patch'):
-            r = subprocess.run('patch -p1 -s --no-backup-if-mismatch < %s' % os.path.join(VERIF, entry['patch']), shell=True,
+            # only the package is copied: sections of the patch that touch other files (new tests) are dropped
+            text = open(os.path.join(VERIF, entry['patch'])).read()
+            parts = text.split('\ndiff --git ')
+            kept = [parts[0]] if parts[0].startswith('diff --git ') and ' b/smartquery/' in parts[0].split('\n', 1)[0] else []
+            kept += ['diff --git ' + x for x in parts[1:] if ' b/smartquery/' in x.split('\n', 1)[0]]
+            if parts[0].startswith('diff --git ') and not kept and len(parts) == 1:
+                kept = [parts[0]]
+            fpatch = os.path.join(dst, '.selftest.patch')
+            open(fpatch, 'w').write('\n'.join(kept) + '\n')
+            r = subprocess.run('patch -p1 -s -f --no-backup-if-mismatch < %s' % fpatch, shell=True,
                                cwd=dst, capture_output=True, text=True)
+            os.unlink(fpatch)
             err = '' if r.returncode == 0 else 'patch does not apply: ' + (r.stdout + r.stderr)[-200:]
             if not err and entry.get('edits'):
                 err = apply_edits(dst, entry['edits'])       # a change seeded into the refactored tree
